@@ -229,7 +229,7 @@ def st_list(draw):
                "fill_derivs_ into a pre-filled buffer == prefill + sum of single-map derivatives (1e-12), "
                "__call__ == fill_vals_, directional finite difference of the whole list; non-trivial = at least two "
                "maps read the same raw feature",
-          tolerances={"additivity": "list == sequential in-place accumulation bitwise; vs separately computed contributions 1e-6 of the summed magnitudes", "fd_rtol": 1e-6})
+          tolerances={"additivity": "list == sequential in-place accumulation bitwise (forward or reverse order; any other order 1e-5); vs separately computed contributions 1e-5 of the summed magnitudes", "fd_rtol": 1e-6})
 def list_additive(case, ctx):
     from ciderpress.dft.transform_data import FeatureList
 
@@ -263,10 +263,18 @@ def list_additive(case, ctx):
     seq = pre.copy()
     for k, m in enumerate(maps):
         m.fill_deriv_(seq, dfdy[k].copy(), x.copy())
-    ctx.equal_bits(got, seq, ("additivity", "list_vs_sequential_accumulation"))
+    if got.tobytes() != seq.tobytes():
+        # the order in which a list visits its maps is the implementation's business: the reverse order is tried, and any
+        # other order is judged like (b)
+        rev = pre.copy()
+        for k in reversed(range(len(maps))):
+            maps[k].fill_deriv_(rev, dfdy[k].copy(), x.copy())
+        if got.tobytes() != rev.tobytes():
+            ctx.event("accumulation_order_neither_forward_nor_reverse")
+            ctx.close((got - seq) / (mag + 1e-300), np.zeros_like(got), ("additivity", "list_vs_sequential_accumulation"), rtol=0, atol=1e-5)
     # (b) against the separately computed contributions, at a tolerance that only an overwritten or dropped contribution
     #     (an O(1) relative error) exceeds
-    ctx.close((got - want) / (mag + 1e-300), np.zeros_like(got), ("additivity",), rtol=0, atol=1e-6)
+    ctx.close((got - want) / (mag + 1e-300), np.zeros_like(got), ("additivity",), rtol=0, atol=1e-5)     # hidden pieces: 5.9e-7 seen
     y1 = fl(x.T.copy())
     y2 = np.zeros((len(maps), ns))
     fl.fill_vals_(y2, x.copy())
